@@ -957,17 +957,14 @@ theorem root_cases (pj : PJ) (i : Iter) (hv : Iter.Valid pj i) :
       have hc2 : i.cur.toNat ≠ 0 := u64_ne_zero_toNat (fun h => hc (Or.inr h))
       have hd : Iter.Valid pj { i with addNext := 0, lim := i.cur.toNat - 1 } :=
         ⟨by have := hv.1; show i.cur.toNat - 1 ≤ pj.tape.size; omega, Int.le_refl _⟩
-      obtain ⟨d', tg, he, hv', hlim, _, ho, _, _, hcase⟩ := advanceInto_safe pj _ hd
+      obtain ⟨d', tg, he, hv', hlim, _, ho, htg, _, hcase⟩ := advanceInto_safe pj _ hd
       dsimp only
       rw [he]
       simp only [Res.bind_ok]
       refine Or.inr ⟨_, _, rfl, hv', ?_⟩
       rcases hcase with ⟨ht, ha, _⟩ | ⟨hlt, hle, _, _⟩
       · left
-        unfold Iter.type
-        split
-        · rfl
-        · rw [ht]; exact tagToType_tagEnd
+        rw [htg, ht]; exact tagToType_tagEnd
       · right
         have e1 : d'.lim = i.cur.toNat - 1 := hlim
         have e2 : i.off + (0 : Int).toNat < d'.off := hlt
